@@ -5,8 +5,10 @@
 //! `grafeo-sim digest <property> [--seed N] [--runs N]`   (determinism self-check helper)
 
 mod checks;
+mod eng_store;
 mod eng_txm;
 mod fw;
+mod model_graph;
 mod prng;
 
 use fw::Tier;
